@@ -1352,6 +1352,60 @@ pub fn directed() -> Vec<Request> {
             }
         }
     }
+    // method signatures inside an impl item: receiver form x PATTERN of the right-hand parameter x
+    // header x trait list, and qualifiers / attributes / generics on the method (what the expander
+    // reads out of the user's method - names, patterns, types - it has to handle in every form)
+    {
+        let receivers = [
+            "self", "mut self", "&self", "&mut self", "&'a mut self", "self: Self", "mut self: Self", "self: &mut Self", "self: Box<Self>", "_: Self", "this: Self", "",
+        ];
+        let pats = [
+            "rhs", "mut rhs", "_", "other", "ref r", "ref mut r", "(a, b)", "r @ _", "mut r @ _", "&r", "&mut r", "X { a }", "X(a, ..)", "[a]", "r#type", "mut r#rhs",
+            "#[allow(unused)] rhs", "#[cfg(x)] rhs", "__rhs", "self_", "state", "m!()", "(mut a, ref b)", "box_", "..",
+        ];
+        let heads = [
+            ("impl Add for X", "add", "X", "-> X"),
+            ("impl AddAssign for X", "add_assign", "X", ""),
+            ("impl<'a> Add<&'a X> for &'a X", "add", "&'a X", "-> X"),
+            ("impl<T> SubAssign<T> for X<T>", "sub_assign", "T", ""),
+        ];
+        for (head, m, ty, ret) in heads {
+            let out_ty = if ret.is_empty() { "" } else { "type Output = X;" };
+            for attr in ["Add, AddAssign", "Add", "AddAssign", "Sub, SubAssign", ""] {
+                for recv in receivers {
+                    for pat in pats {
+                        let sep = if recv.is_empty() { "" } else { ", " };
+                        out.push(Request {
+                            mode: Mode::Attr,
+                            attr: attr.into(),
+                            item: format!("{head} {{ {out_ty} fn {m}({recv}{sep}{pat}: {ty}) {ret} {{ loop {{}} }} }}"),
+                        });
+                    }
+                }
+                for q in [
+                    "const", "unsafe", "async", "extern \"C\"", "#[inline]", "#[cfg(x)]", "#[doc = \"d\"]", "pub", "pub(crate)", "default",
+                ] {
+                    out.push(Request { mode: Mode::Attr, attr: attr.into(), item: format!("{head} {{ {out_ty} {q} fn {m}(self, rhs: {ty}) {ret} {{ loop {{}} }} }}") });
+                }
+                for (g, params, w) in [
+                    ("<'b>", format!("self, rhs: {ty}"), ""), ("<U>", format!("self, rhs: {ty}"), "where U: Copy"), ("<const N: usize>", format!("self, rhs: {ty}"), ""),
+                    ("", format!("self, rhs: {ty}, extra: u8"), ""), ("", "self".to_string(), ""), ("", String::new(), ""), ("", format!("self, rhs: {ty},"), ""),
+                    ("", format!("self, rhs: impl Into<{ty}>"), ""), ("", "self, rhs: Self".to_string(), "where Self: Sized"), ("", format!("self, rhs: {ty}, ..."), ""),
+                ] {
+                    out.push(Request { mode: Mode::Attr, attr: attr.into(), item: format!("{head} {{ {out_ty} fn {m}{g}({params}) {ret} {w} {{ loop {{}} }} }}") });
+                }
+                // the method twice, misspelled, or of the other form
+                for extra in [format!("fn {m}(self, mut rhs: {ty}) {ret} {{ loop {{}} }} fn {m}(self, rhs: {ty}) {ret} {{ loop {{}} }}"), format!("fn {m}_(self, mut rhs: {ty}) {{}}"), "fn neg(mut self) -> X { self }".to_string()] {
+                    out.push(Request { mode: Mode::Attr, attr: attr.into(), item: format!("{head} {{ {out_ty} {extra} }}") });
+                }
+            }
+        }
+        for recv in receivers {
+            for attr in ["Neg", "Not, Neg", ""] {
+                out.push(Request { mode: Mode::Attr, attr: attr.into(), item: format!("impl Neg for X {{ type Output = X; fn neg({recv}) -> X {{ loop {{}} }} }}") });
+            }
+        }
+    }
     // normalise to the printed token form and drop what is not a valid request
     let mut res = Vec::new();
     let mut seen = std::collections::BTreeSet::new();
